@@ -33,6 +33,24 @@ theorem not_conversion_in_event_order_full : ¬ C35_conversion_in_event_order_fu
   revert this
   decide
 
+/-- in order, one single-frame file per event: both datums carry frame 0 -/
+def repeatedFrame : List Doc :=
+  [.start, .descriptor ⟨"d1", "primary", ["x"], ["img"]⟩, .resource "r" true,
+   .datum ⟨"r/0", "r", some 0⟩,
+   .event ⟨"d1", 1, [("x", .num 0), ("img", .str "r/0")], [("img", false)]⟩,
+   .datum ⟨"r/1", "r", some 0⟩,
+   .event ⟨"d1", 2, [("x", .num 1), ("img", .str "r/1")], [("img", false)]⟩, .stop]
+
+/-- the second stream datum gets the empty range [1,1) -/
+theorem empty_range : (NormFlow.run repeatedFrame).err = none ∧
+    framed ("primary", "img") (NormFlow.run repeatedFrame).outs = [(0, 1), (1, 1)] := by decide
+
+theorem not_ranges_nonempty_full : ¬ C35_ranges_nonempty_full := by
+  intro h
+  have := h repeatedFrame (by decide) ⟨"r/1", "r-img", "d1", 1, 1, 2, 2⟩ ⟨⟨.str "r/1", "img", "d1", 2⟩, some 0, "primary"⟩
+    (by decide) (by intro f hf; simp at hf; omega)
+  simp at this
+
 /-- the table before fix a091d48: `datum` (and `resource`, `stream_resource`) made a shallow copy -/
 def tableF12 : Table :=
   { generatedTable with copyKind := fun hd => match hd with
